@@ -97,6 +97,8 @@ pub enum Mutation {
     Xml { start: usize, end: usize, with: String, what: String },
     /// replace the whole XML section by raw bytes
     XmlRaw { bytes: Vec<u8>, what: String },
+    /// a logical overwrite and an XML replacement together (fields that are checked against each other)
+    Both { off: u64, bytes: Vec<u8>, start: usize, end: usize, with: String, what: String },
     /// physical edit without re-sealing
     Phys { off: usize, xor: u8, what: String },
     Truncate(usize),
@@ -106,7 +108,7 @@ pub enum Mutation {
 impl Mutation {
     pub fn what(&self) -> String {
         match self {
-            Mutation::Logical { what, .. } | Mutation::Xml { what, .. } | Mutation::XmlRaw { what, .. } | Mutation::Phys { what, .. } => what.clone(),
+            Mutation::Logical { what, .. } | Mutation::Xml { what, .. } | Mutation::XmlRaw { what, .. } | Mutation::Phys { what, .. } | Mutation::Both { what, .. } => what.clone(),
             Mutation::Truncate(n) => format!("file truncated to {n} bytes"),
             Mutation::Extend(n, b) => format!("{n} bytes of {b:#04x} appended"),
         }
@@ -133,6 +135,7 @@ impl Mutation {
                 }
             }
             Mutation::XmlRaw { .. } => "xmlraw",
+            Mutation::Both { .. } => "conspiracy",
             Mutation::Phys { .. } => "unsealed",
             Mutation::Truncate(_) | Mutation::Extend(..) => "size",
         }
@@ -419,6 +422,28 @@ pub fn menu(seed: &Seed, with_unsealed: bool) -> Vec<Mutation> {
                 }
             }
         }
+        // blob conspiracies: the descriptor length in the XML and the length in the binary section
+        // header (which are checked against each other) announce the same huge size
+        for s in rep.sections.iter().filter(|s| s.kind == "blob") {
+            let key = format!("fileOffset=\"{}\"", s.phys_start);
+            let Some(k) = xml.find(&key) else { continue };
+            let Some(ts) = xml[..k].rfind('<') else { continue };
+            let Some(te) = xml[k..].find('>').map(|x| x + k) else { continue };
+            let Some(lp) = xml[ts..te].find(" length=\"").map(|x| x + ts + 9) else { continue };
+            let Some(le_) = xml[lp..te].find('"').map(|x| x + lp) else { continue };
+            for big in [1u64 << 28, 1 << 31, 1 << 40, (1 << 62) - 16, u64::MAX - 15] {
+                for slack in [16u64, 0] {
+                    m.push(Mutation::Both {
+                        off: s.log_start + 8,
+                        bytes: le(big.wrapping_add(slack), 8),
+                        start: lp,
+                        end: le_,
+                        with: big.to_string(),
+                        what: format!("blob at {}: XML length <- {big} and section length <- {big}+{slack}", s.phys_start),
+                    });
+                }
+            }
+        }
         // comments and short foreign elements with multi-byte characters at shifting alignments,
         // inserted in front of the first elements and in front of the root's end tag
         {
@@ -557,6 +582,26 @@ pub fn apply(seed: &Seed, mu: &Mutation) -> Option<Vec<u8>> {
         Mutation::Xml { start, end, with, .. } => {
             let rep_h = e57spec::decode::read_header(&seed.bytes).ok()?;
             let (log, _) = page::unseal(&seed.bytes).ok()?;
+            let xs = page::phys_to_log(rep_h.xml_phys_offset)? as usize;
+            let xe = xs + rep_h.xml_length as usize;
+            if xe > log.len() {
+                return None;
+            }
+            let xml = &log[xs..xe];
+            let mut nx = Vec::with_capacity(xml.len() + with.len());
+            nx.extend_from_slice(&xml[..*start]);
+            nx.extend_from_slice(with.as_bytes());
+            nx.extend_from_slice(&xml[*end..]);
+            rebuild_with_xml(&log, xs, xe, &nx)
+        }
+        Mutation::Both { off, bytes, start, end, with, .. } => {
+            let rep_h = e57spec::decode::read_header(&seed.bytes).ok()?;
+            let (mut log, _) = page::unseal(&seed.bytes).ok()?;
+            let o = *off as usize;
+            if o + bytes.len() > log.len() {
+                return None;
+            }
+            log[o..o + bytes.len()].copy_from_slice(bytes);
             let xs = page::phys_to_log(rep_h.xml_phys_offset)? as usize;
             let xe = xs + rep_h.xml_length as usize;
             if xe > log.len() {
